@@ -12,7 +12,7 @@ TWIN = os.environ.get("XH_TWIN") == "1"
 PATCH = os.environ.get("XH_NO_PATCH") != "1"
 
 
-def set(module, name, value):          # noqa: A001
+def put(module, name, value):
     """module.name = value, unless patching is disabled (driver process)"""
     if PATCH:
         setattr(module, name, value)
